@@ -95,9 +95,10 @@ def add_case(s: Stream, hname: str, H: np.ndarray, syn: np.ndarray, desc, tag, b
     else:
         op = 'uf.trace' if full else 'uf.decode'
         impl = r['trace']
-        # the proved statement, observed on the implementation: on a closed graph the answer to the
-        # syndrome of an error has that syndrome (Properties/C05UnionFind.uf_decode_total)
-        if from_error and classify(H) == 'closed':
+        # the proved statement, observed on the implementation: on a closed multigraph (parallel edges
+        # allowed) the answer to the syndrome of an error has that syndrome
+        # (Properties/C05UnionFind.uf_decode_total)
+        if from_error and classify(H) in ('closed', 'closedmulti'):
             res = r['result']
             ok = res.startswith('X:') and np.array_equal(
                 (H.astype(int) @ np.array([int(ch) for ch in res[2:]], dtype=int)) % 2, syn.astype(int) % 2)
@@ -108,9 +109,11 @@ def add_case(s: Stream, hname: str, H: np.ndarray, syn: np.ndarray, desc, tag, b
 
 
 def classify(H: np.ndarray) -> str:
-    """independent (numpy) evaluation of the hypotheses of Properties/C05UnionFind.lean:
-    'closed' (0/1, columns of weight 0 or 2, no two rows sharing two columns), 'graphlike'
-    (columns of weight <= 2), 'none'"""
+    """independent (numpy) evaluation of the hypotheses of Properties/C05UnionFind.lean, most special
+    first: 'closed' (0/1, columns of weight 0 or 2, no two rows sharing two columns), 'closedmulti'
+    (columns of weight 0 or 2, two rows sharing fewer than 256 columns: parallel edges allowed),
+    'graphlike' (columns of weight <= 2, no parallel edges), 'multigraph' (columns of weight <= 2,
+    fewer than 256 parallel edges), 'none'"""
     H = np.asarray(H).astype(int)
     if H.size and not np.all((H == 0) | (H == 1)):
         return 'none'
@@ -119,9 +122,12 @@ def classify(H: np.ndarray) -> str:
         return 'none'
     G = H @ H.T
     np.fill_diagonal(G, 0)
-    if np.any(G > 1):
+    if np.any(G >= 256):
         return 'none'
-    return 'closed' if not np.any(w == 1) else 'graphlike'
+    simple = not np.any(G > 1)
+    if not np.any(w == 1):
+        return 'closed' if simple else 'closedmulti'
+    return 'graphlike' if simple else 'multigraph'
 
 
 def make(name, size):
@@ -235,10 +241,11 @@ def streams(ctx) -> List[Stream]:
                                             'error': qs}, f'{size[0]}x{size[1]}:weight{w}', budget)
     out.append(s.run())
 
-    # --- which lattices satisfy the hypotheses of the theorems (closedGraph / graphLike), evaluated by the
-    #     compiled model and independently here; the expected class per family is part of the claim:
-    #     Toric2DCode with both sides >= 3 is a closed graph in both sectors (UnionFindDecoder.allowed_codes),
-    #     a side of length 2 gives parallel edges (known finding), planar codes have dangling edges
+    # --- which lattices satisfy the hypotheses of the theorems (closedGraph / closedMultigraph / graphLike /
+    #     multigraphLike), evaluated by the compiled model and independently here; the expected class per
+    #     family is part of the claim: Toric2DCode with both sides >= 3 is a closed simple graph in both
+    #     sectors, a side of length 2 gives parallel edges (closed multigraph: correct since the repair of
+    #     Peeling_Tree.peel, the former finding D15), planar codes have dangling edges
     s = Stream('uf-internals-hypothesis-classes')
     sizes = {'Toric2DCode': [(2, 2), (2, 3), (3, 2), (3, 3), (3, 4), (4, 4), (5, 3), (2, 5), (6, 6), (7, 4)]
              + ([(8, 8), (9, 5), (10, 10)] if thorough else []),
@@ -250,7 +257,7 @@ def streams(ctx) -> List[Stream]:
             for sec, H in sectors(code):
                 cls = classify(H)
                 if cname == 'Toric2DCode':
-                    expect = 'closed' if min(size) >= 3 else 'none'
+                    expect = 'closed' if min(size) >= 3 else 'closedmulti'
                     if cls != expect:     # the claim about the allowed lattices no longer holds
                         cls = f'{cls} (expected {expect} for {cname}{size})'
                 s.add(f'uf.class {stack(H.tolist())}', cls,
@@ -266,7 +273,8 @@ def streams(ctx) -> List[Stream]:
     out.append(s.run())
 
     # --- arbitrary small matrices: simple graphs, parallel edges, dangling edges (weight-1 columns),
-    #     empty columns, hyperedges; syndromes of errors and (1 in 7) arbitrary syndromes
+    #     empty columns, hyperedges; syndromes of errors and (1 in 7) arbitrary syndromes; every fourth
+    #     weight-2 matrix gets duplicated columns so that parallel edges (closed multigraphs) are frequent
     s = Stream('uf-internals-random-matrices')
     budget = Budget(8 if thorough else 3)
     for t in range(240 if thorough else 60):
@@ -278,6 +286,10 @@ def streams(ctx) -> List[Stream]:
             w = [2, int(rng.integers(0, 3)), int(rng.integers(0, 5))][mode]
             rows = rng.choice(m, min(w, m), replace=False)
             H[rows, q] = 1
+        if t % 4 == 1 and n >= 2:
+            for q in range(1, n, 2):          # parallel edges: every odd column repeats its left neighbour
+                if rng.random() < 0.6:
+                    H[:, q] = H[:, q - 1]
         for attempt in range(8):
             e = (rng.random(n) < 0.45).astype('uint8')
             syn = (H @ e) % 2
